@@ -23,6 +23,8 @@ Pow(b, e) == IF e <= 0 THEN 1 ELSE b * Pow(b, e - 1)
 
 Doc(k) == CASE W.k = "fixed" -> W.a
             [] W.k = "chain" -> W.ds[Min(k, Len(W.ds))]
+            \* a chain whose last stage depends on the attempt number: retry k > n uses that stage's delay FOR RETRY k
+            [] W.k = "chain_incr" -> IF k <= Len(W.ds) THEN W.ds[k] ELSE Max(0, Min(W.a + W.b * (k - 1), W.c))
             [] W.k = "exp" -> Max(0, Min(W.a * Pow(W.b, k - 1), W.c))
             [] W.k = "incr" -> Max(0, Min(W.a + W.b * (k - 1), W.c))
             [] OTHER -> 0
